@@ -117,6 +117,13 @@ def _slice_piece(p, lo, w):
             if t.name == 'sel':
                 return sel(t.ops[0], slice_(t.ops[1], lo2, w), slice_(t.ops[2], lo2, w))
             return op(t.name, w, *[slice_(o, lo2, w) for o in t.ops])
+        if t.kind == 'op' and t.name == 'sum' and p[2] + lo > 0 and len(t.ops) == 1 and t.attrs[1] == (1,) \
+                and t.attrs[0] & ((1 << (p[2] + lo)) - 1) == 0:
+            # x + K where the low m bits of K are zero: no carry enters bit m, so bits [m, ..) of the sum are
+            # (x >> m) + (K >> m)  (mod 2^(width-m)); the low m bits are those of x
+            m = p[2] + lo
+            hi = add(slice_(t.ops[0], m, t.width - m), const(t.width - m, t.attrs[0] >> m))
+            return slice_(hi, 0, w)
         if t.kind == 'op' and t.name == 'sum':
             # known-zero high bits: if sum_i coef_i * max(op_i) + k cannot wrap, bits above its length are 0
             bl = _sum_bitlen(t)
@@ -1071,6 +1078,17 @@ def _lin_build(d, k, w):
         z = items[0][1][0]
         if len(z) == 2 and pw(z[0]) == 1 and _zero(z[1]):
             return rep((z[0],), w)               # -zext(c) = rep(c)
+    # common known-zero low bits: if the low m bits of every summand and of the constant are zero, nothing carries
+    # into bit m and the sum is  [0 x m] ++ (sum of the parts shifted right by m)   (mod 2^(w-m))
+    m = w
+    for kk, v in items:
+        z = v[0]
+        m = min(m, pw(z[0]) if (z and z[0][0] == 'c' and z[0][2] == 0) else 0)
+    if k:
+        m = min(m, (k & -k).bit_length() - 1)
+    if 0 < m < w:
+        hi = _lin_comb(w - m, [(slice_(v[0], m, w - m), v[1]) for kk, v in items] + [(const(w - m, k >> m), 1)])
+        return cat(const(m, 0), hi)
     ops = tuple(v[0] for kk, v in items)
     coefs = tuple(v[1] & _mask(w) for kk, v in items)
     t = _mk('op', 'sum', w, (k, coefs), ops)
